@@ -594,6 +594,41 @@ pub fn c07(cx: &Ctx, rep: &mut Report) {
                 }
             }
         }
+        // contexts of 2^31 and 2^32 bytes and a little more: a guard that narrows the length to i32 / u32 wraps only there.
+        // `vec![0u8; n]` is lazily zero-mapped, and a correct implementation refuses before reading a byte, so this costs
+        // nothing on a correct tree. The signatures were forged once over the wrapped length byte (witnesses/c07_huge_ctx.json).
+        {
+            let hk = refmodel::keygen_internal(p, &HUGE_KEY_SEED);
+            let (hpk, hsk) = ((api.pk_from_bytes)(&hk.pk), (api.sk_from_bytes)(&hk.sk));
+            if let (Ok(Ok(hpk)), Ok(Ok(hsk))) = (hpk, hsk) {
+                for l in HUGE_LENS {
+                    let ctx = vec![0u8; l];
+                    for &mode in &full_modes {
+                        rep.count("huge_lengths(2^31,2^32)", 1);
+                        rep.nontrivial_case(fnv(&[&l.to_le_bytes()[..], &[mode as u8, p.id as u8, 0xEE]].concat()));
+                        let mut rng = ScriptRng::ok(&rnd);
+                        let rp = json!({"engine":"api","set":p.id,"ops":[{"op":"ctx_len_case","what":"huge","mode":format!("{mode:?}"),"len":l}]});
+                        match hsk.sign(mode, &mut rng, HUGE_MSG, &ctx) {
+                            Ok(Err(_)) => {}
+                            other => rep.violate(Violation { key: format!("c07:sign:{mode:?}:overlong-ctx-signed"), summary: format!("ML-DSA-{} {mode:?}: signing with a {l}-byte context returned {:?}", p.id, other.map(|r| r.map(|_| "a signature"))), replay: rp.clone() }),
+                        }
+                    }
+                }
+                for (mode, l, sig) in load_huge_witnesses(p) {
+                    let ctx = vec![0u8; l];
+                    rep.count("huge_lengths(2^31,2^32):forged-signature", 1);
+                    rep.nontrivial_case(fnv(&sig));
+                    match hpk.verify(mode, HUGE_MSG, &sig, &ctx) {
+                        Ok(false) => {}
+                        other => rep.violate(Violation {
+                            key: format!("c07:verify:{mode:?}:overlong-ctx-accepted"),
+                            summary: format!("ML-DSA-{} {mode:?}: verification with a {l}-byte context returned {other:?} for a signature made over the wrapped length byte", p.id),
+                            replay: json!({"engine":"api","set":p.id,"ops":[{"op":"ctx_len_case","what":"huge-verify","mode":format!("{mode:?}"),"len":l}]}),
+                        }),
+                    }
+                }
+            }
+        }
         // sigma2 / sigma3 aliases through honest signatures
         for &l in &alias_lens {
             let ctx = alpha::ctx(l);
@@ -627,3 +662,48 @@ pub fn c07(cx: &Ctx, rep: &mut Report) {
     }
 }
 
+
+
+// ---------------------------------------------------------------- huge contexts (2^31, 2^32)
+
+pub const HUGE_KEY_SEED: [u8; 32] = [0x48u8; 32];
+pub const HUGE_MSG: &[u8] = b"huge-ctx";
+pub const HUGE_LENS: [usize; 6] = [(1 << 31) - 1, 1 << 31, (1 << 31) + 5, (1usize << 32) - 1, 1usize << 32, (1usize << 32) + 5];
+
+fn huge_path() -> String { format!("{}/witnesses/c07_huge_ctx.json", crate::report::verif_root()) }
+
+pub fn load_huge_witnesses(p: &Params) -> Vec<(Mode, usize, Vec<u8>)> {
+    let Ok(text) = std::fs::read_to_string(huge_path()) else { return Vec::new() };
+    let Ok(v) = serde_json::from_str::<serde_json::Value>(&text) else { return Vec::new() };
+    v["witnesses"]
+        .as_array()
+        .map(|a| {
+            a.iter()
+                .filter(|w| w["set"].as_u64() == Some(u64::from(p.id)))
+                .map(|w| (alpha::mode_from_str(w["mode"].as_str().unwrap()), w["len"].as_u64().unwrap() as usize, refmodel::unhex(w["sig"].as_str().unwrap())))
+                .collect()
+        })
+        .unwrap_or_default()
+}
+
+/// `mc hugegen`: forge (reference only) the signatures over the wrapped length byte for contexts of 2^31+5 and 2^32+5 bytes
+pub fn hugegen() -> i32 {
+    let mut out = Vec::new();
+    for p in refmodel::ALL_PARAMS {
+        let kg = refmodel::keygen_internal(p, &HUGE_KEY_SEED);
+        let skc = SkCtx::new(p, &kg.sk);
+        for l in [(1usize << 31) + 5, (1usize << 32) + 5] {
+            for mode in [Mode::Pure, Mode::Sha256] {
+                let t = std::time::Instant::now();
+                let ctx = vec![0u8; l];
+                let mp = forge::wrapped_m_prime(mode, HUGE_MSG, &ctx);
+                drop(ctx);
+                let sig = refmodel::sign_internal_ctx(&skc, &mp, &[0x44u8; 32], &refmodel::SignOpts::default()).0.unwrap();
+                println!("ML-DSA-{} {mode:?} len {l}: forged in {:.0}s", p.id, t.elapsed().as_secs_f64());
+                out.push(json!({"set": p.id, "mode": format!("{mode:?}"), "len": l, "sig": hex(&sig)}));
+            }
+        }
+    }
+    std::fs::write(huge_path(), serde_json::to_string(&json!({"how": "reference Sign_internal over M' = domain || (len mod 256) || 0^len || tail, key seed 0x48^32, message 'huge-ctx', rnd 0x44^32", "witnesses": out})).unwrap()).unwrap();
+    0
+}
